@@ -308,6 +308,9 @@ func elemType(md Model, first *sx.Node) reflect.Type {
 	if t == nil {
 		return anyRT
 	}
+	for w := md.Int(first.Wrap); w > 0; w-- {
+		t = reflect.PointerTo(t)
+	}
 	return t
 }
 
